@@ -333,6 +333,42 @@ Proof. exact TokRoundZEx.corez_shape_check_sound. Qed.
 Theorem C05_zones_with_siblings_nonvacuous : TokRoundZEx.rtz TokRoundZEx.exz.
 Proof. exact TokRoundZEx.exz_roundtrip. Qed.
 
+(* ---- ZONES NEXT TO SIBLINGS, TEXT LEVEL (lexer half Rt/LexLinkZ*.v) ---------------------------------------------------------
+   For every corez document (keyed zones at any depth next to any other core2 node, several per body) with zone_ok markers /
+   content (no content line that closes or over-runs the fence) and normalised tags, the whole reader model -- fence
+   pre-pass with ANY NFC oracle that fixes the ordinary and the fence lines (arbitrary on zone content), tab check, lexer
+   with its span bookkeeping, parser -- returns the document from the emitted text: every zone comes back byte for byte
+   (content, tag, marker) together with all its siblings.  Zone content is otherwise arbitrary (tabs, NFD text, operators,
+   K::v, ===END===, shorter backtick runs). *)
+From OV Require Rt.LexLinkZPos Rt.LexLinkZText Rt.LexLinkZ Rt.LexLinkZEx.
+Theorem C05_text_roundtrip_corez :
+  forall cls numcanon holo_ok strict sp d,
+    TokRoundZ.corez_doc d = true -> LexLinkZText.lex_safez_doc cls d = true ->
+    TokRoundZ.nums_ok2_l numcanon (u_space cls) TokRound2Ex.ex_idnum (dsections d) -> Forall (TokRoundZ.field_num_ok numcanon) (dmeta d) ->
+    exists warns, parse_model cls numcanon holo_ok strict (LexLinkBase.lines_of (emit sp d)) = PRDoc d [] warns /\ Forall TokRound.advisory warns.
+Proof. exact LexLinkZ.text_roundtrip_corez. Qed.
+
+Theorem C05_lex_emit_corez_any_nfc_oracle :
+  forall cls (nf : str -> str) sp d,
+    TokRoundZ.corez_doc d = true -> LexLinkZText.lex_safez_doc cls d = true ->
+    Forall (LexLinkZText.blk_fixed nf) (LexLinkZText.doc_blocks d) -> nf [] = [] ->
+    exists ts tnl teof,
+      tokenize cls false (map (fun l => (l, nf l)) (split_on c_nl (emit sp d))) = LexOk (ts ++ [tnl; teof]) [] /\
+      Forall2 TokRound.tmatch ts (TokRoundZ.docz_sh needs_multiline TokRound2Ex.ex_idnum d) /\ tk tnl = NEWLINE /\ tk teof = EOF.
+Proof. exact LexLinkZ.lex_emit_corez_nfc. Qed.
+
+Theorem C05_shape_check_corez_complete :
+  forall cls sp d, TokRoundZ.corez_doc d = true -> LexLinkZText.lex_safez_doc cls d = true ->
+    TokRoundZEx.corez_shape_check cls d (LexLinkBase.lines_of (emit sp d)) = 1%N.
+Proof. exact LexLinkZ.shape_check_corez. Qed.
+
+Theorem C05_lex_emit_corez_full_refuted : ~ LexLinkZEx.lex_emit_corez_full.
+Proof. exact LexLinkZEx.lex_emit_corez_full_refuted. Qed.
+
+Theorem C05_text_roundtrip_corez_nonvacuous :
+  LexLinkZText.lex_safez_doc TokRoundEx.ex_cls TokRoundZEx.exz = true /\ LexLinkZText.lex_safez_doc TokRoundEx.ex_cls TokRoundZEx.exz2 = true.
+Proof. exact LexLinkZEx.exz_safe. Qed.
+
 (* ---- source-text pins (generated by harness/pinsets.py) ---- *)
 (* every function of these modules is, text for text (comments and docstrings excluded), the one the models of this
    property were written against and validated against: harness/translate/srcdigest_t.py, Src/Pin_*.v *)
